@@ -1,5 +1,6 @@
 import Nstd.Server.LemmasC13
 import Nstd.Server.TraceC13
+import Nstd.Server.ReentC13
 /-
   C13 — property theorems.  `reach ops` is the state of the model after ANY history `ops`
   (writes of any data with any send outcome, poll rounds reporting any subset of the ready
@@ -95,6 +96,42 @@ theorem ready_all_drains (ops : List Op) (h : (reach ops).dead = false) (hc : (r
     ∃ s' out, step (reach ops) (.ready false true .all) = some (s', out) ∧ s'.backlog = [] ∧
       out.cbs = [Cb.onWrite] ∧ s'.handed = (reach ops).handed ++ (reach ops).backlog :=
   ready_drains (reach ops) (runOps_inv init ops inv_init) h hc hb
+
+/-! ### re-entrant histories: writes (and suspend / resume / read) issued from inside onRead / onWrite -/
+
+/-- the state after a history in which poll rounds carry the calls their onRead / onWrite callback makes -/
+def reachR (ops : List OpR) : St := runR init ops
+
+/-- a re-entrant history is the plain history of its calls in execution order -/
+theorem reentrant_is_flat (ops : List OpR) : reachR ops = reach (flatten init ops) :=
+  runR_eq_flatten init ops
+
+/-- stream_exact with re-entrant writes: bytes handed to the OS ++ backlog = the data of ALL writes that returned true — those
+    made at top level and those made inside onWrite / onRead — in the order in which the calls were made -/
+theorem stream_exact_reentrant (ops : List OpR) (h : (reachR ops).dead = false) :
+    (reachR ops).handed ++ (reachR ops).backlog = writesTrue init (flatten init ops) := by
+  rw [reentrant_is_flat] at h ⊢
+  exact stream_exact _ h
+
+/-- the peer receives exactly that stream: nothing a callback wrote is lost, duplicated or reordered -/
+theorem peer_stream_exact_reentrant (ops : List OpR) (h : (reachR ops).dead = false) :
+    peerGot init (flatten init ops) ++ (reachR ops).wire ++ (reachR ops).backlog = writesTrue init (flatten init ops) := by
+  rw [reentrant_is_flat] at h ⊢
+  exact peer_stream_exact _ h
+
+/-- a partial write made inside onWrite keeps its write interest (the shape of the seeded change C13-5): after ANY re-entrant
+    history the registration is (read unless suspended) + (write iff backlog) -/
+theorem interest_inv_reentrant (ops : List OpR) (h : (reachR ops).dead = false) :
+    (reachR ops).interest = some (!(reachR ops).suspended, !(reachR ops).backlog.isEmpty) := by
+  rw [reentrant_is_flat] at h ⊢
+  exact interest_inv _ h
+
+/-- non-vacuity: the backlog drains, onWrite writes 4 bytes of which the OS takes one: backlog and write interest are back -/
+def exReent : List OpR :=
+  [.plain (.write [1, 2, 3] (.cnt 1)), .readyCb false true .all [.write [4, 5, 6, 7] (.cnt 1)]]
+
+example : (reachR exReent).backlog = [5, 6, 7] ∧ (reachR exReent).interest = some (true, true) ∧
+    (reachR exReent).handed = [1, 2, 3, 4] ∧ writesTrue init (flatten init exReent) = [1, 2, 3, 4, 5, 6, 7] := by decide
 
 /-! non-vacuity: concrete histories reach the situations the theorems talk about -/
 
